@@ -216,6 +216,20 @@ Proof.
   apply Inv_bind; [apply Inv_get | intros b0]. destruct b0; apply Inv_fail.
 Qed.
 
+Lemma Inv_remove_if_there c : Inv (remove_if_there c).
+Proof.
+  unfold remove_if_there. apply Inv_bind; [apply Inv_get | intros b]. destruct b; [apply Inv_remove_cp | apply Inv_ret].
+Qed.
+
+Lemma Inv_api_unpeer6 a b ca cb : Inv (api_unpeer6 a b ca cb).
+Proof.
+  unfold api_unpeer6. apply Inv_bind; [apply Inv_need_node | intros x].
+  apply Inv_bind; [apply Inv_guard | intros _].
+  apply Inv_bind; [apply Inv_get | intros ps].
+  destruct ps as [|p ps']; [apply Inv_fail|].
+  apply Inv_bind; [apply Inv_for_each_set; intros c; apply Inv_remove_if_there | intros _; apply Inv_ret].
+Qed.
+
 Lemma Inv_api_prune : Inv api_prune.
 Proof.
   unfold api_prune.
@@ -228,7 +242,7 @@ Proof.
   unfold exec. destruct o;
     repeat first [apply Inv_api_remove_node | apply Inv_api_remove_facility | apply Inv_api_remove_switch
                  | apply Inv_api_remove_link | apply Inv_api_remove_ns_topo | apply Inv_api_remove_component
-                 | apply Inv_api_node_remove_ns | apply Inv_api_disconnect | apply Inv_api_unpeer
+                 | apply Inv_api_node_remove_ns | apply Inv_api_disconnect | apply Inv_api_unpeer6 | apply Inv_api_unpeer
                  | apply Inv_api_remove_interface | apply Inv_api_remove_child | apply Inv_api_prune | inv_step].
 Qed.
 
